@@ -444,7 +444,7 @@ pub fn run_c18_b(ctx: &Ctx) -> Outcome {
 pub fn run_c19_c(ctx: &Ctx) -> Outcome {
     let mut o = Outcome::new();
     let rt = runtime(4);
-    let rounds = ctx.vol(6, 120);
+    let rounds = ctx.vol(24, 600);
     let mut rng = ctx.rng(1919);
     for round in 0..rounds {
         let burst = rng.usize(1, 6);
@@ -466,36 +466,57 @@ pub fn run_c19_c(ctx: &Ctx) -> Outcome {
             };
             let mut r = Rng::new(seed, 5);
             let mut expected: BTreeSet<uuid::Uuid> = cluster.nodes().iter().map(|n| n.host_id).collect();
+            let mut refreshes: Vec<tokio::task::JoinHandle<Result<(), String>>> = Vec::new();
             for step in 0..burst {
-                // a burst of topology changes: new node(s) joining, announced or not by events
+                // a burst of topology changes: new node(s) joining, announced or not by events.
+                // Some new nodes are slow to accept connections, so the consumer of the hand-off (the
+                // cluster worker, which waits for the new pools) is busy while further fetches complete
+                // and are MERGED into the pending update.
                 let n = cluster.add_node(NodeSpec::simple("dc1", &format!("r{}", 3 + step), vec![1000 + step as i64 * 10 + round as i64]), true).await;
+                if r.chance(2, 3) {
+                    n.handshake_delay_ms.store(40 + r.below(160), std::sync::atomic::Ordering::SeqCst);
+                }
                 expected.insert(n.host_id);
                 if with_events {
                     cluster.push_event(&Event::TopologyChange { change: "NEW_NODE".into(), addr: std::net::IpAddr::V4(n.ip), port: MAIN_PORT as i32 });
                     cluster.push_event(&Event::StatusChange { change: "UP".into(), addr: std::net::IpAddr::V4(n.ip), port: MAIN_PORT as i32 });
                 }
-                if r.bool() {
-                    // concurrent explicit refresh requests (merged updates)
+                // concurrent explicit refresh requests (their answers ride on merged updates)
+                for _ in 0..r.usize(0, 3) {
                     let s2 = session.clone();
-                    tokio::spawn(async move {
-                        let _ = s2.refresh_metadata().await;
-                    });
+                    let d = r.below(30);
+                    refreshes.push(tokio::spawn(async move {
+                        tokio::time::sleep(Duration::from_millis(d)).await;
+                        s2.refresh_metadata().await.map_err(|e| e.to_string())
+                    }));
+                }
+                if r.bool() {
+                    tokio::time::sleep(Duration::from_millis(r.below(40))).await;
                 }
             }
             let key = fw::hash64(format!("{burst}:{with_events}:{seed}").as_bytes());
             o.case(key, true);
             o.class(if with_events { "c:burst-with-events" } else { "c:burst-without-events" });
-            // the refresh that was requested must be answered (bounded progress: 30 s watchdog while the node answers instantly)
+            // every refresh that was requested must be answered (bounded progress: 30 s watchdog while the nodes answer within 200 ms)
+            let n_ref = refreshes.len();
+            for (i, h) in refreshes.into_iter().enumerate() {
+                match tokio::time::timeout(Duration::from_secs(30), h).await {
+                    Err(_) => o.violation("c19c:refresh-never-answered", format!("concurrent refresh_metadata() call {i} of {n_ref} did not return within 30 s"), json!({"part": "c", "burst": burst, "events": with_events, "seed": seed})),
+                    Ok(Err(join)) => o.violation("c19c:refresh-never-answered", format!("concurrent refresh_metadata() call {i} of {n_ref} was dropped unanswered (the call panicked: {join})"), json!({"part": "c", "burst": burst, "events": with_events, "seed": seed})),
+                    Ok(Ok(Err(e))) => o.violation("c19c:refresh-failed", format!("concurrent refresh_metadata() call {i} failed: {e}"), json!({"part": "c", "burst": burst, "events": with_events, "seed": seed})),
+                    Ok(Ok(Ok(()))) => o.class("c:concurrent-refresh-answered"),
+                }
+            }
             match tokio::time::timeout(Duration::from_secs(30), session.refresh_metadata()).await {
-                Err(_) => o.violation("c19c:refresh-never-answered", "refresh_metadata() did not return within 30 s although the control node answers at once", json!({"part": "c", "burst": burst, "events": with_events})),
-                Ok(Err(e)) => o.violation("c19c:refresh-failed", format!("refresh_metadata() failed: {e}"), json!({"part": "c", "burst": burst, "events": with_events})),
+                Err(_) => o.violation("c19c:refresh-never-answered", "refresh_metadata() did not return within 30 s although the control node answers at once", json!({"part": "c", "burst": burst, "events": with_events, "seed": seed})),
+                Ok(Err(e)) => o.violation("c19c:refresh-failed", format!("refresh_metadata() failed: {e}"), json!({"part": "c", "burst": burst, "events": with_events, "seed": seed})),
                 Ok(Ok(())) => {
                     let got: BTreeSet<uuid::Uuid> = session.get_cluster_state().get_nodes_info().iter().map(|n| n.host_id).collect();
                     if got != expected {
                         o.violation(
                             "c19c:published-state-not-latest-topology",
                             format!("after refresh_metadata() returned, the cluster state names {} nodes, the latest topology has {}", got.len(), expected.len()),
-                            json!({"part": "c", "burst": burst, "events": with_events, "missing": expected.difference(&got).map(|u| u.to_string()).collect::<Vec<_>>()}),
+                            json!({"part": "c", "burst": burst, "events": with_events, "seed": seed, "missing": expected.difference(&got).map(|u| u.to_string()).collect::<Vec<_>>()}),
                         );
                     } else {
                         o.class("c:state-reflects-latest-topology");
@@ -511,7 +532,7 @@ pub fn run_c19_c(ctx: &Ctx) -> Outcome {
         });
     }
     o.sample(json!({"part": "c", "rounds": rounds}));
-    for c in ["c:burst-with-events", "c:burst-without-events", "c:state-reflects-latest-topology"] {
+    for c in ["c:burst-with-events", "c:burst-without-events", "c:state-reflects-latest-topology", "c:concurrent-refresh-answered"] {
         o.require_class(c);
     }
     o
